@@ -134,6 +134,11 @@ func refEq(a, b reflect.Value, top bool, depth int) bool {
 		if a.Len() != b.Len() {
 			return false
 		}
+		if keyHasPointer(t.Key()) {
+			// keys holding pointers: Go's key equality is identity, a deep copy has fresh keys. Structural
+			// equality of such maps is equality of their canonical encodings (entries sorted by encoded key)
+			return CanonOf(a.Interface()) == CanonOf(b.Interface())
+		}
 		it := a.MapRange()
 		for it.Next() {
 			bv := b.MapIndex(it.Key())
@@ -193,6 +198,23 @@ func methodGoverned(t reflect.Type, top bool, seen map[reflect.Type]bool) bool {
 	case reflect.Struct:
 		for i := 0; i < t.NumField(); i++ {
 			if methodGoverned(t.Field(i).Type, false, seen) {
+				return true
+			}
+		}
+	}
+	return false
+}
+
+// keyHasPointer reports whether values of a (comparable) map key type can hold pointers.
+func keyHasPointer(t reflect.Type) bool {
+	switch t.Kind() {
+	case reflect.Pointer, reflect.Interface, reflect.Chan, reflect.UnsafePointer:
+		return true
+	case reflect.Array:
+		return keyHasPointer(t.Elem())
+	case reflect.Struct:
+		for i := 0; i < t.NumField(); i++ {
+			if keyHasPointer(t.Field(i).Type) {
 				return true
 			}
 		}
